@@ -432,6 +432,46 @@ def run_extras(work, vh, rep, seed, tier):
                            "covers": "move priority queue, First(), MVV-LVA priorities, stable sort, Selection(), WriteLimited tables, books built from lines"}
 
 
+def run_console_extras(work, vh, rep, tier):
+    """The console driver (spec/Console.tla): outside the listed properties (they anchor the UCI driver only).
+    TLC: the model with the UCI driver's repairs transplanted (Fixed = TRUE) satisfies the three invariants and
+    the liveness properties; the model of the code (Fixed = FALSE) violates each invariant.  The probes try
+    the counterexamples on the real driver.  Everything here is a note in the evidence, never a verdict."""
+    base = {"MaxCmds": 3 if tier == "quick" else 4, "NS": 2, "MaxDepth": 2}
+    info = {}
+    cfg = vlib.cfg_text(spec="FairSpec", constants=dict(base, Fixed="TRUE"), invariants=["NoPanic", "NoStaleBest", "NoLostAnswer"],
+                        properties=["Answered", "LoopReturns"], view="View")
+    r = vlib.tlc(work, "Console", cfg, workers=vlib.NCPU, timeout=1500, heap="8g", name="Console-fixed")
+    rep.add_tlc(r)
+    info["repaired_design_holds"] = bool(r.ok)
+    info["repaired_design_states"] = r.distinct
+    found = []
+    for inv in ["NoPanic", "NoStaleBest", "NoLostAnswer"]:
+        cfg = vlib.cfg_text(spec="Spec", constants=dict(base, MaxCmds=4, Fixed="FALSE"), invariants=[inv], view="View")
+        r = vlib.tlc(work, "Console", cfg, workers=vlib.NCPU, timeout=900, heap="8g", name="Console-code-" + inv)
+        if ("Invariant %s is violated" % inv) in (r.out or ""):
+            found.append(inv)
+    info["counterexamples_on_the_model_of_the_code"] = found
+    probes = {}
+    for probe, n in [("short-reset", 1), ("quit-race", 150), ("double-halt", 40), ("stale-best", 60)]:
+        try:
+            p = vlib.run_harness(work, vh, ["console", "-probe", probe, "-n", n], timeout=300, check=False)
+        except Exception as e:  # a hung probe is not a verdict on anything
+            probes[probe] = "probe did not finish: %s" % type(e).__name__
+            continue
+        txt = p.stdout + p.stderr
+        res = [l for l in txt.splitlines() if l.startswith("RESULT")]
+        pan = [l for l in txt.splitlines() if l.startswith("panic:")]
+        if pan or p.returncode != 0:   # (deferred closes can let the RESULT line out while the process is dying)
+            probes[probe] = "process died: " + (pan[0] if pan else "rc=%d" % p.returncode)
+        else:
+            probes[probe] = res[0][len("RESULT "):] if res else "no result"
+    info["probes_on_the_real_driver"] = probes
+    for k, v in sorted(probes.items()):
+        print("NOTE console driver (not a listed property) probe %s: %s" % (k, v))
+    rep.extra["console"] = info
+
+
 ALLCFG = "morlock,hash,minimax,qsmat,qshash,turochamp,sargon,bernstein"
 
 
@@ -453,6 +493,7 @@ def c03(work, tier, seed):
     search_traces(work, vh, rep, ["C03"], jobs)
     require(rep, ["tree", "search"], "C03")
     run_extras(work, vh, rep, seed, tier)
+    run_console_extras(work, vh, rep, tier)
     rep.assumptions = ["the tree dump enumerates children with the real PushMove/PopMove (validated independently by C01/C02/C05/C08)",
                        "explored flags are evaluated the way the search evaluates them (predicate obtained at the parent, called after the move is pushed)",
                        "the reference negamax (Search!MM / QMM) is evaluated by TLC with Score.tla's order; it shares no code with the implementation",
